@@ -42,7 +42,7 @@ pub fn run_level_child(args: &Args) {
             .with_file(&src, FileOptions::new("/usr/share/lvl/file.txt"))?
             .build()?;
         let mut out = Vec::new();
-        pkg.write(&mut out)?;
+        pkg.write(&mut Plain(&mut out))?;
         Ok::<_, rpm::Error>(())
     });
     std::process::exit(match outcome(r).0 {
@@ -139,7 +139,7 @@ pub fn run(args: &Args) {
                 .compression(CompressionWithLevel::None)
                 .build()?;
             let mut out = Vec::new();
-            pkg.write(&mut out)?;
+            pkg.write(&mut Plain(&mut out))?;
             Ok::<_, rpm::Error>(())
         }));
         t.emit(json!({"event":"Meta","fields":f.iter().map(|s| s.chars().take(12).collect::<String>()).collect::<Vec<_>>(),"outcome":o,"msg":msg}));
